@@ -10,8 +10,12 @@ Model (Lean):   driver op "c08find":
                            front ends; compared with the implementation on EVERY code base (also inside F-C08-1);
                   mixed  = its language-mixing log (FindCache.mixLog; NoMix <=> mixed == []);
                   cached_eq_ref = the conclusion of C08.find_cached_eq_findG_partial, evaluated;
-                  model  = CbiVerif.FindInst.findI = FindFold.findG (analyseEntry fs)  (C-family port, partial defs),
-                  spec   = stateless union, pp = the state-threading port PP.find.
+                  model  = CbiVerif.FindInst.findI = FindFold.findG (analyseEntry fs): the C-family INSTANCE of the same
+                           total engine (FindInst.semPP; C08.findI_is_engine), no partial def,
+                  spec   = stateless union, pp = the state-threading run of that instance (FindInst.findPP;
+                           C08.findI_eq_cached: equal to model on every input),
+                  class_ok / model_eq_cached = hypothesis ClassOK and conclusion of
+                           C08.findI_eq_cached_engine_partial, evaluated.
 Property oracle (spec vs implementation): the property text applied to the implementation's own
                 runs — every run happens in a forked child process, so a single-command run
                 really starts from a fresh state:
@@ -672,7 +676,19 @@ def check_codebase(ctx, drv, desc, origin, cli=False, only=None):
             okp, whyp = same_attr(mv, pv)
             if not okp:
                 ctx.dist["pp.find!=findI"] += 1
-                ctx.notes.append(f"state-threading port PP.find differs from findI on {origin}: {whyp}")
+                ctx.notes.append(f"state-threading run findPP differs from findI on {origin}: {whyp} "
+                                 "(contradicts findI_eq_cached)")
+                if "pp" in m:
+                    ctx.corr_break("c08find:pp", {"desc": desc, "why": whyp}, _small(mv), _small(pv))
+            # the engine-agreement theorem, evaluated: ClassOK and NoMix => findI == findC (semC fs), exactly
+            if isinstance(m.get("class_ok"), bool):
+                ctx.dist["ClassOK(full):" + ("holds" if m["class_ok"] else "fails")] += 1
+                if m["class_ok"] and not (m.get("mixed") or []):
+                    ctx.count(key="corr:c08find-engines")
+                    if m.get("model_eq_cached") is not True:
+                        ctx.notes.append(f"driver: ClassOK and NoMix but findI != findC on {origin} "
+                                         "(contradicts findI_eq_cached_engine_partial)")
+                        ctx.corr_break("c08find:engines", {"desc": desc}, m.get("model_eq_cached"), True)
             # three-way: with no mixing event the cached total model and the generic-fold instance agree
             if "cached" in m and not (m.get("mixed") or []):
                 okm, whym = same_attr(model_view(m.get("cached"), d), mv)
@@ -794,7 +810,10 @@ def run(ctx, drv):
         "a 'compile command analysed alone from a fresh state' is observed as: the tool run in a newly forked process "
         "on a configuration holding that single database command (all its compiler passes)",
         "attribution is compared per parse-tree node (kind, physical lines, platform set), which implies per line",
-        "the generic-fold instance findI covers the C-family front end only; the total model with the shared parse "
+        "the generic-fold instance findI is the C-family instance (FindInst.semPP) of the one total engine of "
+        "Model/Exclude.lean (C08.findI_is_engine); it equals the cached engine under the driver's semantics on inputs "
+        "satisfying the decidable ClassOK and NoMix (C08.findI_eq_cached_engine_partial; both evaluated by the driver "
+        "on every full configuration); the total model with the shared parse "
         "cache (FindCache.findC, the subject of the cache-transparency theorems) has all three front ends and is "
         "compared with the implementation on every stream, including the F-C08-1 stream (it reproduces the finding)",
         "F-C08-1 is accepted as the explanation of a discrepancy only if the cached model logged a language-mixing "
